@@ -226,3 +226,18 @@ def replay_tours(job):
         r['edges'] = [(lab, n) for lab, n in tour[:r['steps']]] if r['mismatch'] else None
         out.append(r)
     return out
+
+
+def replay_files(job):
+    """(behaviour files written by `tlc -simulate`, consts, workdir, [opts per file]) -> list of results"""
+    files, c, workdir, optlist = job
+    out = []
+    for i, (f, opts) in enumerate(zip(files, optlist)):
+        steps = tlaparse.parse_simulate_file(f)
+        os.remove(f)
+        r = cd.replay_path((steps, c, opts['kind'], os.path.join(workdir, 'b%d' % i), opts))
+        r['tour'] = None
+        r['length'] = len(steps) - 1
+        r['_steps'] = steps if (r['mismatch'] or r['monitor']) else None
+        out.append(r)
+    return out
